@@ -43,12 +43,20 @@ def run_invariant_loop(interp, vr, node, env, it, invariants, force):
     ex = interp.ex
     args = vr.current_args
     owner = c.name
+    vr.loop_heap = dict(HM.heap_of(ex))        # pre_*: the heap when this loop is entered
     # 1. the invariant holds on entry with nothing visited
     vr.done_set = z3.K(HM.Node, False)
     for i, inv in enumerate(invs):
         vr.oblige_spec(f'{owner}/inv-init@loop{k}#{i}:{inv.__name__}', 'inv-init', inv, args)
     # 2. an arbitrary later state: havoc what the loop may change, assume the invariant
+    entry_heap = dict(HM.heap_of(ex))
     ex.heap = HM.fresh_heap(ex, f'loop{k}')
+    untouched = []
+    if getattr(c, 'modifies', None) is not None:
+        # fields outside the function's frame are not havocked; that the body leaves them alone is checked at inv-keep
+        untouched = [f_ for f_ in entry_heap if f_ not in c.modifies]
+        for f_ in untouched:
+            ex.heap[f_] = entry_heap[f_]
     done = z3.Array(ex.fresh_name(f'done@loop{k}'), HM.Node, z3.BoolSort())
     m = z3.Const(ex.fresh_name('dm'), HM.Node)
     ex.assume(z3.ForAll([m], z3.Implies(z3.Select(done, m), it.member(m))))
@@ -70,6 +78,11 @@ def run_invariant_loop(interp, vr, node, env, it, invariants, force):
         vr.done_set = z3.Store(done, cnode, True)
         for i, inv in enumerate(invs):
             vr.oblige_spec(f'{owner}/inv-keep@loop{k}#{i}:{inv.__name__}', 'inv-keep', inv, args)
+        if untouched:
+            cur = HM.heap_of(ex)
+            from .sym import mk_bool
+            vr.oblige(f'{owner}/inv-keep@loop{k}:frame', 'inv-keep',
+                      mk_bool(z3.And(*[cur[f_] == entry_heap[f_] for f_ in untouched])))
         raise PathDone()
     # 3b. the loop is over: every member has been visited
     m2 = z3.Const(ex.fresh_name('dm'), HM.Node)
